@@ -118,7 +118,8 @@ def geometry(net):
             inds[p].append(l)
             inds[i].append(l)
             parent[i] = p
-            if merge is not None and merge[i - 1]:
+            if merge is not None and merge[i - 1] and i > 1:
+                # (tensor 1 always starts its own region: at least one bond between two regions, i.e. one message)
                 group[i] = group[p]
     if merge is not None and len(set(group)) == 1 and n >= 2:
         group[n - 1] = n - 1  # the last tensor is always a leaf: at least two regions
@@ -973,8 +974,26 @@ def run_regions(case):
     bad = sorted((repr(v), total.get(v, 0)) for v in allnodes if total.get(v, 0) != 1)
     distinct = len({frozenset(r) for r in regions})
     if bad:
-        raise Violation("node-count-not-one", route=case["route"], common_node=bool(frozenset.intersection(*map(frozenset, regions))),
-                        bad=bad[:3])
+        # classify: is a region of the intersection closure (with non-zero Moebius count) absent from the result?
+        closure = {frozenset(r) for r in regions}
+        grew = True
+        while grew:
+            grew = False
+            for x in list(closure):
+                for y in list(closure):
+                    z = x & y
+                    if z and z not in closure:
+                        closure.add(z)
+                        grew = True
+        ref = {}
+        for r in sorted(closure, key=len, reverse=True):
+            ref[r] = 1 - sum(c for q, c in ref.items() if r < q)
+        have = {frozenset(r) for r, c in pairs}
+        missing = [r for r, c in ref.items() if c != 0 and r not in have]
+        common = bool(frozenset.intersection(*map(frozenset, regions)))
+        if missing:
+            raise Violation("intersection-missing", route=case["route"], common_node=common, bad=bad[:3])
+        raise Violation("node-count-not-one", route=case["route"], common_node=common, bad=bad[:3])
     if claimed is False:
         raise Violation("isbalanced-false", route=case["route"])
     return {"nt": distinct >= 3, "cls": ["route=" + case["route"], f"regions={min(distinct, 6)}",
@@ -1154,6 +1173,11 @@ def run_expansions(case):
             if flavour == "d2" and expo != 0 and rel_scalar(got, ref * 10.0 ** (-expo)) <= TOL:
                 # exactly one factor 10**exponent is missing
                 raise Violation("exponent-counted-once", flavour=flavour, route=route)
+            if flavour == "hd1" and route == "contract_gloop_expand" and rel_scalar(got, 10.0 ** expo) <= TOL:
+                # no tensor was counted at all: the result is the bare 10**exponent
+                raise Violation("tree-tensors-not-counted", flavour=flavour, route=route)
+            if flavour == "hd1" and route == "normalize_messages" and net["kind"] == "signed" and not math.isfinite(abs(got)):
+                raise Violation("nan-after-normalize-messages", flavour=flavour, route=route)
             raise Violation("value-after", flavour=flavour, route=route, err=err, kind=net["kind"], exp_nonzero=expo != 0)
         return max(err, e0)
 
